@@ -39,10 +39,10 @@ class Machine:
         e = resolve(peel(e))
         if self.is_self_field(e, self.cursor):
             return 0
-        if e.get("k") == "binary" and e["op"] == "-" and self.is_self_field(e["l"], self.cursor):
+        if e.get("k") == "binary" and e["op"] in ("-", "+") and self.is_self_field(e["l"], self.cursor):
             r = peel(e["r"])
             if r.get("k") == "lit" and isinstance(r.get("v"), int):
-                return r["v"]
+                return r["v"] if e["op"] == "-" else -r["v"]
         return None
 
     def variant_of(self, e):
